@@ -235,6 +235,12 @@ def identity(spec):
 
     p = corpus.make_problem(spec)
     kw = dict(spec["kwargs"])
+    if spec.get("target_frac") is not None:
+        # a target between the start value and the best value of the plain run, with a loose ftol: both stop tests
+        # can hold in the same iteration
+        r0 = lbfgsb.minimize_lbfgsb(x0=p.x0, fun=p.fun, jac=p.grad, bounds=p.bounds, **dict(kw, ftol=0.0))
+        f_start = float(p.fun(np.clip(p.x0, p.lb, p.ub)))
+        kw["ftarget"] = f_start - spec["target_frac"] * (f_start - float(r0.fun))
     la, lb_ = equiv.EvalLog(p.fun, p.grad), equiv.EvalLog(p.fun, p.grad)
     ra = lbfgsb.minimize_lbfgsb(x0=p.x0, fun=la.fun, jac=la.grad, bounds=p.bounds,
                                 update_fun_def=lambda x, f0, f0o, g, X, G: (f0, f0o, g, G), **kw)
@@ -271,12 +277,20 @@ def specs(ctx):
             b = dict(base)
             b["kwargs"] = dict(base["kwargs"], ftol=float(rng.choice([0.0, 1e-6, 1e-2])), maxiter=int(rng.integers(0, 15)),
                                maxfun=int(rng.choice([3, 10, 400])))
+            if i % 4 == 0:
+                b["target_frac"] = float(rng.choice([0.1, 0.5, 0.9, 0.99]))
+                b["kwargs"]["ftol"] = float(rng.choice([1e-2, 0.3, 0.9]))
+                b["kwargs"]["maxiter"] = 15
+                b["kwargs"]["maxfun"] = 400
             idt.append(b)
     return sw, idt, rr
 
 
 def run(ctx):
     drivercheck.design(ctx)
+    # objective redefinitions ("rewrite" update functions, restarts included): every result / callback state that carries
+    # pairs holds a sequence filtered after the last redefinition (I_C13_ReturnFiltered, I_C13_SnapFiltered)
+    drivercheck.design(ctx, cfg="MCDriver_rewrite.cfg")
     for c in c10.mem_cfgs(ctx)[:1]:
         recs = c10.memory_states(ctx, c)
         c10.replay_states(ctx, recs, ("C13_",))
